@@ -1,6 +1,7 @@
 """C02 - value conservation / P&L attribution (per operation and per date)."""
 from .. import mon1
-from . import _w1case
+from .. import mon2
+from . import _w1case, _w2case
 
 ID = "C02"
 LEVEL = "exploration"
@@ -13,12 +14,15 @@ ASSUMPTIONS = ["commission functions are harness-owned pure functions re-evaluat
 
 def plan(tier):
     n = 1500 if tier == "quick" else 40000
-    return [dict(unit="w1", n=n, builds=["py", "so"], case_timeout=60)]
+    m = 400 if tier == "quick" else 10000
+    return [dict(unit="w1", n=n, builds=["py", "so"], case_timeout=60), dict(unit="w2", n=m, builds=["py", "so"], case_timeout=120)]
 
 
 def floors(tier):
-    return {"min_decided": 300, "counters": {"conservation_op_evals": 5000, "conservation_date_evals": 1000, "trades": 500}, "max_undecided_frac": 0.4}
+    return {"min_decided": 300, "counters": {"conservation_op_evals": 5000, "conservation_date_evals": 1000, "trades": 500, "c02_date_evals": 10000}, "max_undecided_frac": 0.4}
 
 
 def run_case(unit, cs, idx, build, params):
+    if unit == "w2":
+        return _w2case.run_w2(cs, [mon2.c02_dates])
     return _w1case.run_w1(cs, [mon1.Conservation()])
